@@ -40,12 +40,20 @@ fn one_config(i: usize, seed: u64, reps: usize, thorough: bool) -> Out {
     let ands = if thorough && i % 17 == 0 { 1001 } else { [0usize, 1, 2, 3, 6, 10][i % 6] };
     let mut cfg = circ::random_gen_cfg(&mut rng, n, ands);
     if ands > 500 { cfg.others = 50; cfg.extra_regs = 30; cfg.reuse_pct = 50; }
+    // wide circuits: thousands of registers (message vectors are sized by max_reg_count) and many outputs
+    let wide = i % 10 == 7;
+    if wide {
+        cfg.others = 1100 + (i % 7) * 300;
+        cfg.extra_regs = cfg.others + ands + 40;
+        cfg.reuse_pct = 0;
+        cfg.n_out = 48;
+    }
     let c = circ::gen_circuit(&mut rng, &cfg);
     let p_eval = rng.random_range(0..n);
     let p_out: Vec<usize> = (0..n).filter(|_| rng.random_bool(0.6)).collect();
     let p_out = if p_out.is_empty() { vec![rng.random_range(0..n)] } else { p_out };
     let tmp: Vec<bool> = (0..n).map(|_| thorough && rng.random_bool(0.3)).collect();
-    let key = format!("n={n} E={p_eval} O={:?} ands={ands} tmp={} feat={}", p_out, bits(&tmp), cfg.features());
+    let key = format!("n={n} E={p_eval} O={:?} ands={ands} regs={} tmp={} feat={}", p_out, if c.max_reg_count >= 1024 { ">=1024" } else { "<1024" }, bits(&tmp), cfg.features());
     let mut reference: Option<(Pattern, Vec<Vec<bool>>)> = None;
     let mut msgs = 0;
     let mut ops = 0;
